@@ -18,10 +18,7 @@ import (
 	"time"
 
 	"k8s.io/apimachinery/pkg/apis/meta/v1/unstructured"
-	"k8s.io/apimachinery/pkg/labels"
 	"k8s.io/apimachinery/pkg/runtime/schema"
-	"k8s.io/client-go/dynamic/dynamiclister"
-	"k8s.io/client-go/tools/cache"
 
 	"metacontroller/pkg/zzverif/env"
 	stub "metacontroller/pkg/zzverif/informerstub"
@@ -117,6 +114,15 @@ func VerifC18_ResyncTimer() {
 	inFlight := ownPeriod && rt.Bool("removal-arrives-while-a-resync-is-in-flight")
 
 	hA, hB := verifNewGated(), verifNewGated()
+	// the subscription may hold a plain handler (no timer) added BEFORE the one
+	// with its own period: removal stops every timer of the subscription, in
+	// whatever order the handlers were added
+	hP := verifNewGated()
+	plainFirst := ownPeriod && rt.Bool("a-plain-handler-was-added-to-the-subscription-before")
+	if plainFirst {
+		rt.Cover("resync/plain-handler-first")
+		riA.Informer().AddEventHandler(hP)
+	}
 	if ownPeriod {
 		riA.Informer().AddEventHandlerWithResyncPeriod(hA, 2*time.Millisecond)
 	} else {
@@ -154,6 +160,7 @@ func VerifC18_ResyncTimer() {
 		go func() {
 			riA.Informer().RemoveEventHandlers()
 			hA.set(false, true)
+			hP.set(false, true)
 			close(removedCh)
 		}()
 		time.Sleep(20 * time.Millisecond)
@@ -163,6 +170,7 @@ func VerifC18_ResyncTimer() {
 	} else {
 		riA.Informer().RemoveEventHandlers()
 		hA.set(false, true)
+		hP.set(false, true)
 		close(removedCh)
 	}
 	// the removal waits for a resync in flight: it cannot return before the gate opens
@@ -174,6 +182,8 @@ func VerifC18_ResyncTimer() {
 	rt.FireTickers()
 	_, _, lateA := hA.snapshot()
 	verifAssert(lateA == 0, "resync/event-delivered-after-RemoveEventHandlers-returned")
+	_, _, lateP := hP.snapshot()
+	verifAssert(lateP == 0, "resync/event-delivered-after-RemoveEventHandlers-returned")
 	uB2, _, lateB := hB.snapshot()
 	verifAssert(uB2 == nObj+1 && lateB == 0, "resync/other-subscriber-affected-by-removal")
 	if rt.Symbolic() {
@@ -185,22 +195,6 @@ func VerifC18_ResyncTimer() {
 	verifAssert(st.Stopped(), "resync/informer-not-stopped-after-last-close")
 }
 
-// verifHookedLister runs a callback right after a List() took its snapshot:
-// the harness plays "the informer dispatches an event at this very moment".
-type verifHookedLister struct {
-	dynamiclister.Lister
-	after *func()
-}
-
-func (l *verifHookedLister) List(selector labels.Selector) ([]*unstructured.Unstructured, error) {
-	res, err := l.Lister.List(selector)
-	if f := *l.after; f != nil {
-		*l.after = nil
-		f()
-	}
-	return res, err
-}
-
 // VerifC18_AddDuringEvent: a handler is added while the informer dispatches an
 // event: the object enters the cache and is announced right after the add-time
 // replay took its snapshot. The new handler must still hear about it (replay
@@ -208,10 +202,6 @@ func (l *verifHookedLister) List(selector labels.Selector) ([]*unstructured.Unst
 // and so must the handler that was there before.
 func VerifC18_AddDuringEvent() {
 	verifC18Install()
-	var afterList func()
-	VerifNewLister = func(indexer cache.Indexer, gvr schema.GroupVersionResource) dynamiclister.Lister {
-		return &verifHookedLister{Lister: stub.NewLister(indexer, gvr), after: &afterList}
-	}
 	w := env.NewWorld()
 	f := NewSharedInformerFactory(w.Dyn, 0)
 	riA, errA := f.Resource("ex.com/v1", "things")
@@ -237,7 +227,9 @@ func VerifC18_AddDuringEvent() {
 		riA.Informer().AddEventHandler(hA)
 	}
 	delivered := make(chan struct{})
-	afterList = func() {
+	// (hooked on the cache itself: whether the replay reads it through the lister
+	// or straight from the store is the implementation's business)
+	st.Indexer.AfterSnapshot = func() {
 		// the reflector stores b and the informer announces it, concurrently
 		st.Indexer.Items = append(st.Indexer.Items, b)
 		go func() {
@@ -320,4 +312,86 @@ func VerifC18_ConcurrentFirstSubscribers() {
 	}
 	verifAssert(f.VerifRunning() == 0, "concurrent-first/shared-informer-still-held")
 	rt.Cover("concurrent-first/done")
+}
+
+// VerifC18_RemoveDuringDispatch: RemoveEventHandlers() arrives while the shared
+// informer is in the middle of dispatching an event to the handlers of that
+// very subscription (the first handler is still running, the second has not
+// been called yet). Whatever the implementation does - wait for the dispatch
+// or cut it short - NO handler of the subscription is invoked after the
+// removal has returned (C18 "after which it receives nothing"; C20 "after a
+// stop no further hook call is made on its behalf": the customize manager's
+// related-object handlers call the customize hook).
+func VerifC18_RemoveDuringDispatch() {
+	verifC18Install()
+	w := env.NewWorld()
+	f := NewSharedInformerFactory(w.Dyn, 0)
+	riA, errA := f.Resource("ex.com/v1", "things")
+	riB, errB := f.Resource("ex.com/v1", "things")
+	verifAssert(errA == nil && errB == nil && riA != nil && riB != nil, "remove-during-dispatch/subscribe-error")
+	if verifC18Failed {
+		return
+	}
+	stub.Settle(1)
+	stubs := stub.Stubs()
+	verifAssert(len(stubs) == 1 && stubs[0].HandlerCount() == 1, "remove-during-dispatch/setup")
+	if verifC18Failed {
+		return
+	}
+	shared := stubs[0].Handler(0)
+	// 2..3 handlers on the subscription; the one that is running when the removal
+	// arrives is any but the last (so at least one has not been called yet)
+	nH := 2 + rt.Choice("handlers-of-the-subscription", 2)
+	blocked := rt.Choice("handler-running-when-the-removal-arrives", nH-1)
+	var hs []*verifGated
+	for i := 0; i < nH; i++ {
+		h := verifNewGated()
+		hs = append(hs, h)
+		riA.Informer().AddEventHandler(h)
+	}
+	hB := verifNewGated()
+	riB.Informer().AddEventHandler(hB)
+	a := env.Thing("ns", "a", "uid-a")
+	lateCalls := func() int {
+		n := 0
+		for _, h := range hs {
+			_, _, late := h.snapshot()
+			n += late
+		}
+		return n
+	}
+
+	hs[blocked].set(true, false) // the delivery to this handler blocks inside it
+	delivered := make(chan struct{})
+	go func() {
+		shared.OnUpdate(a, a)
+		close(delivered)
+	}()
+	<-hs[blocked].entered // the dispatcher is inside that handler; the later ones have not been called
+	removedCh := make(chan struct{})
+	go func() {
+		riA.Informer().RemoveEventHandlers()
+		for _, h := range hs {
+			h.set(false, true)
+		}
+		close(removedCh)
+	}()
+	time.Sleep(20 * time.Millisecond) // the removal runs as far as it can
+	if verifClosed(removedCh) {
+		rt.Cover("remove-during-dispatch/removal-did-not-wait")
+	} else {
+		rt.Cover("remove-during-dispatch/removal-waited")
+	}
+	close(hs[blocked].gate)
+	<-delivered
+	<-removedCh
+	verifAssert(lateCalls() == 0, "remove-during-dispatch/handler-invoked-after-RemoveEventHandlers-returned")
+	// later events reach the other subscriber only
+	shared.OnUpdate(a, a)
+	verifAssert(lateCalls() == 0, "remove-during-dispatch/handler-invoked-after-RemoveEventHandlers-returned")
+	uB, _, _ := hB.snapshot()
+	verifAssert(uB == 2, "remove-during-dispatch/other-subscriber-affected")
+	rt.Cover("remove-during-dispatch/done")
+	riA.Close()
+	riB.Close()
 }
